@@ -37,6 +37,8 @@ type cry struct {
 	e       *flow.Engine
 	opaque  map[*ssa.Function]bool
 	anchors []string
+	cur     *group         // the rule group being recognised (crypto_sx.go)
+	sxSetup func(*flow.Sx) // per-evaluation configuration (field lengths assumed by a rule)
 }
 
 // finish records what was analysed.
